@@ -190,23 +190,38 @@ Section Quad.
 
   (* xxpp_covariance_matrix / hbar = 2 [[Re(G+C), Im(G+C)], [Im(G-C), Re(C-G)]] + I *)
   Definition sig0 (Cf Gf : @fmat A) : @fmat A :=
-    ad (blk d (re2f (ad Gf Cf)) (im2f (ad Gf Cf)) (im2f (ad Gf (oppf Cf))) (re2f (ad Cf (oppf Gf)))) I.
+    ad (blk d (re2f (ad Gf Cf)) (im2f (ad Gf Cf)) (im2f (ad Gf (oppf Cf))) (re2f (ad Cf (oppf Gf))))
+       (blk d I Z Z I).   (* the 2d x 2d identity, in blocks *)
   (* twice the real symplectic matrix of a -> Pf a + Af a^dagger in the xxpp basis *)
   Definition SrD (Pf Af : @fmat A) : @fmat A :=
     blk d (re2f (ad Pf Af)) (oppf (im2f (ad Pf (oppf Af)))) (im2f (ad Pf Af)) (re2f (ad Pf (oppf Af))).
   Definition Sr (Pf Af : @fmat A) : @fmat A := sclf half (SrD Pf Af).
 
+  Lemma sym_blk : forall a X11 X12 X21 X22 Y11 Y12 Y21 Y22,
+    eqm d (ad X11 (tr X11)) (sclf a Y11) -> eqm d (ad X12 (tr X21)) (sclf a Y12) ->
+    eqm d (ad X21 (tr X12)) (sclf a Y21) -> eqm d (ad X22 (tr X22)) (sclf a Y22) ->
+    eqm n2 (ad (blk d X11 X12 X21 X22) (tr (blk d X11 X12 X21 X22))) (sclf a (blk d Y11 Y12 Y21 Y22)).
+  Proof.
+    intros a X11 X12 X21 X22 Y11 Y12 Y21 Y22 H11 H12 H21 H22.
+    rewrite trf_blk, addf_blk, sclf_blk. apply blk_proper; assumption.
+  Qed.
+
   Lemma sig_of_K : forall Cf Gf, eqm d (tr (cj Cf)) Cf -> eqm d (tr Gf) Gf ->
     eqm n2 (ad (Mof (Kblocks co d Cf Gf)) (tr (Mof (Kblocks co d Cf Gf)))) (sclf two (sig0 Cf Gf)).
   Proof.
-    intros Cf Gf HC HG. unfold Mof, Kblocks. rewrite conjV. unfold conjVexpr.
-    rewrite trf_blk, addf_blk. unfold sig0. rewrite idf_blk, addf_blk, sclf_blk.
-    apply blk_proper; intros i j Hi Hj;
+    intros Cf Gf HC HG.
+    assert (HM : eqm n2 (Mof (Kblocks co d Cf Gf))
+                   (conjVexpr (ad (tr Cf) I) Gf (tr (cj Gf)) Cf)) by (unfold Mof, Kblocks; apply conjV).
+    etransitivity; [apply addf_proper; [exact HM|apply trf_proper; exact HM]|].
+    etransitivity; [|apply sclf_proper; symmetry; unfold sig0; apply addf_blk].
+    unfold conjVexpr.
+    apply sym_blk; intros i j Hi Hj;
       assert (E1 : Cf j i = conj (Cf i j)) by (symmetry; apply (HC j i Hj Hi));
       assert (E2 : Gf j i = Gf i j) by (apply (HG i j Hi Hj));
       assert (E3 : idf co j i = idf co i j) by (unfold idf; rewrite Nat.eqb_sym; reflexivity);
       unfold addf, sclf, oppf, trf, cjf, re2f, im2f, zerof, addf, sclf, oppf, cjf;
-      rewrite ?E1, ?E2, ?E3, ?conj_add, ?conj_opp, ?conj_conj; ring.
+      rewrite ?E1, ?E2, ?E3, ?conj_add, ?conj_opp, ?conj_conj.
+    all: ring.
   Qed.
 
   Lemma SrD_is_M : forall Pf Af, eqm n2 (Mof (Sof co d Pf Af)) (SrD Pf Af).
@@ -221,7 +236,8 @@ Section Quad.
     intros Pf Af. unfold SrD. rewrite cjf_blk.
     apply blk_proper; intros i j _ _;
       unfold addf, sclf, oppf, cjf, re2f, im2f, addf, sclf, oppf, cjf;
-      rewrite ?conj_opp, ?conj_mul, ?conj_add, ?conj_opp, ?conj_conj, ?conj_ii; ring.
+      repeat (rewrite conj_opp || rewrite conj_mul || rewrite conj_add || rewrite conj_conj || rewrite conj_ii).
+    all: ring.
   Qed.
 
   Lemma cov_doubled : forall S K K',
@@ -259,7 +275,7 @@ Section Quad.
     rewrite (sclf_sclf n2) in D.
     rewrite (mmf_sclf_r n2), (mmf_sclf_l n2) in D.
     unfold Sr. rewrite (trf_sclf n2).
-    rewrite (mmf_sclf_l n2), !(mmf_sclf_r n2), (mmf_sclf_l n2). rewrite !(sclf_sclf n2).
+    repeat (rewrite (mmf_sclf_l n2) || rewrite (mmf_sclf_r n2) || rewrite (sclf_sclf n2)).
     set (Y := mmf co n2 (mmf co n2 (SrD Pf Af) (sig0 Cf Gf)) (tr (SrD Pf Af))) in *.
     intros i j Hi Hj. specialize (D i j Hi Hj). unfold sclf in *.
     transitivity (hb * (half * half * half) * ((two * two * two) * sig0 C' G' i j)).
